@@ -103,6 +103,10 @@ export const INNER_SIBLINGS = [
 export const SIBLINGS = {
   none: '',
   fnDecl: 'function sib1() { return 1; }',
+  // annotations of other tools that merely start with `@jsx`, and prose mentioning one: none of them names a factory
+  annImportSource: '/* @jsxImportSource vue */\nconst sib71 = 1;',
+  annRuntimeFrag: '/**\n * @jsxRuntime automatic\n * @jsxFrag Frag\n */\nfunction sib72() { return 2; }',
+  annProse: '// TODO: drop the @jsx pragmaH annotations from the legacy files\nconst sib73 = 3;',
   arrow: 'const sib2 = () => 2;',
   arrowBlock: 'const sib3 = () => { return 3; };',
   klass: 'class Sib { m() { return 4; } f = 5; }',
@@ -151,7 +155,8 @@ function buildCase(needName, ctxName, before, after, colliders, colliderPlace, i
     J = null;
   }
   // user declarations with colliding names, used inside the JSX so capture would be visible
-  const collAttrs = coll.map((c, i) => ` u${i}={${c}}`).join('');
+  // place 'free': the module declares nothing under these names and only reads them (typeof): they must stay free
+  const collAttrs = coll.map((c, i) => (colliderPlace === 'free' ? ` u${i}={typeof ${c}}` : ` u${i}={${c}}`)).join('');
   let collApplied = !!need.reassign;
   if (J && coll.length && /^<([\w.]+)/.test(J)) { J = J.replace(/^<([\w.]+)/, (m) => m + collAttrs); collApplied = true; }
   if (colliderPlace === 'module' || colliderPlace === 'outer') for (const c of coll) lines.push(`const ${c} = "user:${c}";`);
@@ -193,7 +198,7 @@ export function* generate({ tier, seed }) {
     if (!c) return null;
     const baseOpts = NEEDS[need].options || {};
     return {
-      gid: `C06-${n++}`, src: c.src, syntax: /^ts/.test(before) || /^ts/.test(after) ? 'tsx' : 'jsx', spec: { env: ENV, thunk: c.thunk, colliders: c.colliders, need, ctx },
+      gid: `C06-${n++}`, src: c.src, syntax: /^ts/.test(before) || /^ts/.test(after) ? 'tsx' : 'jsx', spec: { env: ENV, thunk: c.thunk, colliders: c.colliders, collFree: place === 'free', need, ctx },
       feature: `${need}|${NEEDS[need].reassign ? '-' : ctx}|${before}|${after}|${colliders.length ? place + ':' + colliders.join('+') : '-'}|in=${c.innerUsed.join(',')}`,
       variants: optsList.map((o, i) => ({ vid: `v${i}`, options: { ...baseOpts, ...o } })),
     };
@@ -228,7 +233,7 @@ export function* generate({ tier, seed }) {
     const need = rng.pick(needs), ctx = rng.pick(ctxs);
     const k = 1 + rng.int(4);
     const coll = rng.shuffle(COLLIDERS).slice(0, k);
-    const place = NEEDS[need].reassign ? 'module' : rng.pick(['module', 'module', 'inner']);
+    const place = NEEDS[need].reassign ? rng.pick(['module', 'module', 'free']) : rng.pick(['module', 'module', 'inner', 'free']);
     const g = emit(need, ctx, rng.pick(sibs), rng.pick(sibs), coll, place, [rng.pick(O)]); if (g) yield g;
   }
 }
@@ -293,7 +298,8 @@ export async function check(group, records) {
         if (vnode && vnode.__v_isVNode && spec.colliders.length && spec.need !== 'reassignTwice') {
           for (let i = 0; i < spec.colliders.length; i++) {
             const got = vnode.props && vnode.props[`u${i}`];
-            if (got !== `user:${spec.colliders[i]}`) { bad = { cls: `user-binding-captured/${spec.colliders[i]}`, detail: { expected: `user:${spec.colliders[i]}`, got: short(got) } }; break; }
+            const want = spec.collFree ? 'undefined' : `user:${spec.colliders[i]}`;
+            if (got !== want) { bad = { cls: `${spec.collFree ? 'user-free-reference-captured' : 'user-binding-captured'}/${spec.colliders[i]}`, detail: { expected: want, got: short(got) } }; break; }
           }
         }
       }
